@@ -96,6 +96,31 @@ def gen_scenario(rng: random.Random, policy: str, flavour: str = "mixed"):
         if flavour == "preempt":
             t = rng.choice([0, 0, 1]) if prio != Priority.QUERY else rng.randint(2, 20)
         arrivals.setdefault(t, []).append(p)
+    if flavour == "herd":
+        # a herd of identical two-operator batch pipelines fills every cpu at tick 0 and reaches the operator boundary in the same
+        # tick; several queries are then waiting: several preemptions in ONE round, suspensions that end in the SAME tick
+        arrivals, exact = {}, {}
+        n = rng.choice([4, 6, 10])
+        cpus, npools, multi, oc = n, (2 if policy == "priority-pool" else 1), True, policy == "overbook"
+        ram = 10 * n
+        first = F(4 * rng.choice([2, 3, 5]) + 1, 4 * tps)
+        def mkseg(base, fixed):
+            sg = Segment(baseline_cpu_seconds=float(base), cpu_scaling="const", memory_gb=float(fixed), storage_read_gb=0.0)
+            exact[id(sg)] = {"read": F(0), "fixed": fixed, "base": base}
+            return sg
+        for k in range(n):
+            p = Pipeline(f"h{k + 1}", Priority.BATCH_PIPELINE if policy != "priority-pool" else rng.choice([Priority.BATCH_PIPELINE, Priority.INTERACTIVE]))
+            a = p.new_operator()
+            a.add_segment(mkseg(first, Q))
+            b = p.new_operator([a])
+            b.add_segment(mkseg(F(4 * rng.choice([1, 4, 9, 16]) + 1, 4 * tps), Q))
+            arrivals.setdefault(0, []).append(p)
+        for k in range(rng.choice([2, 2, 3])):
+            p = Pipeline(f"q{k + 1}", Priority.QUERY)
+            a = p.new_operator()
+            a.add_segment(mkseg(F(4 * rng.choice([1, 3, 7]) + 1, 4 * tps), Q))
+            arrivals.setdefault(rng.randint(1, 2), []).append(p)
+        dur_ticks = rng.randint(30, 60)
     params = {"duration": float(F(dur_ticks, tps)) + 1e-9, "ticks_per_second": tps, "scheduler_algo": policy, "num_pools": npools,
               "cpus_per_pool": cpus, "ram_gb_per_pool": float(ram) if isinstance(ram, F) else ram,
               "multi_operator_containers": multi, "allow_memory_overcommit": oc}
@@ -117,7 +142,7 @@ def _chunk(args):
     return [run_scenario(sd, tid0 + i, policy, flavour, mode) for i, sd in enumerate(seeds)]
 
 
-def gen_traces(n: int, seed: int, policies=POLICIES, flavours=(("mixed", 0.55), ("tiny", 0.15), ("preempt", 0.3)), mode="step", procs=None):
+def gen_traces(n: int, seed: int, policies=POLICIES, flavours=(("mixed", 0.5), ("tiny", 0.15), ("preempt", 0.25), ("herd", 0.1)), mode="step", procs=None):
     import multiprocessing as mp
     rng = random.Random(seed)
     jobs, tid = [], 0
